@@ -21,16 +21,58 @@ def _msg(k, w=0, e=0, ids=()):
 
 
 class TracedRace:
-    def __init__(self, scn, seed=0, test_mode=True, queue_size=None, pp_interval=2, offsets=None, on_error="continue", downsample=1):
+    def __init__(self, scn, seed=0, test_mode=True, queue_size=None, pp_interval=2, offsets=None, on_error="continue", downsample=1, fault="none", req_variant="conn_error", fault_delay=0):
         self.scn = scn
-        self.world = racesim.RaceWorld(scn, seed=seed, test_mode=test_mode, queue_size=queue_size, pp_interval=pp_interval, offsets=offsets, on_error=on_error, downsample=downsample)
+        self.fault_delay = fault_delay
+        self.fault_kind = fault
+        self.req_variant = req_variant
+        if fault == "req" and req_variant == "api_error":
+            on_error = "abort"
+        self.world = racesim.RaceWorld(scn, seed=seed, test_mode=test_mode, queue_size=queue_size, pp_interval=pp_interval, offsets=offsets, on_error=on_error, downsample=downsample, full=True)
         self.w = self.world
         from esrally.driver import runner
+        from esrally.track import params
 
         runner.register_runner("verif-request", verif_request, async_runner=True)
+        world = self.world
+
+        class VerifParamSource(params.ParamSource):
+            """Constant parameters; raises when the harness injected a parameter-source fault for this client."""
+
+            def __init__(self_, track, params_, **kw):
+                super().__init__(track, params_, **kw)
+                self_.tid = int(params_["path"].rsplit("/", 1)[1])
+                self_.idx = None
+
+            def partition(self_, partition_index, total_partitions):
+                p = VerifParamSource(self_.track, self_._params)
+                p.idx = partition_index
+                return p
+
+            def params(self_):
+                if world.param_fault == (self_.tid, self_.idx):
+                    world.param_fault = None
+                    world.fault_fired = True
+                    raise ValueError("verif: parameter source failure")
+                return dict(self_._params)
+
+        params.register_param_source_for_name("verif-src", VerifParamSource)
+        self.rc_sent = []  # race-phase messages the coordinator sent to race control, in order
+        self.rc_pos = 0
+        self.rc_stopping = False
+        self.fault_armed = False
+        self.t_fault = None
+        self.t_report = None
+
+        def hook(src, dst, msg):
+            if dst == racesim.RaceWorld.RC and src == racesim.RaceWorld.DRIVER and type(msg).__name__ in ("TaskFinished", "BenchmarkComplete", "BenchmarkFailure", "BenchmarkCancelled"):
+                self.rc_sent.append(msg)
+
+        self.w.sim.send_hook = hook
         # use the harness runner so that every sample carries the id of the wire request that produced it
         for t in self.w.tasks_by_id.values():
             t.operation.type = "verif-request"
+            t.operation.param_source = "verif-src"
         self.vid_info = {}  # vid -> (c, col, n)
         self.completed = {}  # (c, tid) -> completed requests
         self.produced = []
@@ -98,7 +140,10 @@ class TracedRace:
                 run = w.exec_runs.get(wn)
                 fut = run.state if run is not None and run.future is inst.executor_future else "unknown"
             sampq = [list(self.sample_id(s)) for s in list(inst.sampler.q.queue)] if inst.sampler is not None else []
-            wk.append({"cur": inst.current_task_index, "nxt": inst.next_task_index, "sd": bool(inst.start_driving), "fut": fut, "complete": inst.complete.is_set(), "cancel": inst.cancel.is_set(), "sampq": sampq})
+            alive = sim.actors[wn].alive
+            if not alive:
+                fut = fut if fut in ("none", "done", "failed") else fut
+            wk.append({"cur": inst.current_task_index, "nxt": inst.next_task_index, "sd": bool(inst.start_driving), "fut": fut, "complete": inst.complete.is_set(), "cancel": inst.cancel.is_set(), "sampq": sampq, "alive": alive})
         drv = self.driver
         marker = self.drv_actor.RESET_RELATIVE_TIME_MARKER
         dtimers = ["reset" if t["payload"] == marker else "tick" for t in sim.pending_timers(w.DRIVER)]
@@ -111,15 +156,30 @@ class TracedRace:
             "raw": [list(self.sample_id(s)) for s in drv.raw_samples],
             "store": [list(i) for i in store],
             "ppt": self.drv_actor.post_process_timer,
+            "alive": sim.actors[w.DRIVER].alive,
         }
         rcbox = []
-        for _src, m in w.rc_inbox():
+        for m in self.rc_sent:
             nm = type(m).__name__
             if nm in ("TaskFinished", "BenchmarkComplete"):
                 docs = pickle.loads(zlib.decompress(m.metrics)) if m.metrics else []
                 rcbox.append(_msg(nm, ids=self.doc_ids(docs)))
             elif nm in ("BenchmarkFailure", "BenchmarkCancelled"):
                 rcbox.append(_msg(nm))
+        d2d = [self._proj_msg(m) for m in sim.chan.get((w.DRIVER, w.DRIVER), [])]
+        rc2d = [self._proj_msg(m) for m in sim.chan.get((w.RC, w.DRIVER), [])]
+        coord = w.coordinator()
+        replies = [{"Success": "Success", "BenchmarkFailure": "Failure", "BenchmarkCancelled": "Cancelled"}.get(type(m).__name__, type(m).__name__) for _s, m in w.user_inbox()]
+        rcst = {
+            "pos": self.rc_pos,
+            "error": bool(coord.error),
+            "cancelled": bool(coord.cancelled),
+            "stored": self.results_stored(),
+            "stopping": self.rc_stopping,
+            "alive": sim.actors[w.RC].alive,
+            "replies": replies,
+        }
+        flt = {"kind": self.fault_kind, "armed": self.fault_armed and not w.fault_fired, "fired": bool(w.fault_fired)}
         started = w.exec_obs["started"]
         finished = w.exec_obs["finished"]
         cells = []
@@ -128,6 +188,9 @@ class TracedRace:
         for c, tid in started:
             last[c] = tid
         fin_set = set(finished)
+        last_tmp = {}
+        for c, tid in started:
+            last_tmp[c] = tid
         for c in range(M):
             if c not in last:
                 cells.append({"col": -1, "rem": 0, "n": 0, "st": "idle"})
@@ -136,10 +199,19 @@ class TracedRace:
             n = self.completed.get((c, tid), 0)
             reqs = self.task_reqs[tid]
             st = "pend" if c in w.pending else ("done" if (c, tid) in fin_set else "pend")
+            if c in w.cell_override and (w.cell_override[c] == "failed" or st == "pend"):
+                st = w.cell_override[c]
             cells.append({"col": self.col_of(c, tid), "rem": ETERNAL if reqs == ETERNAL else reqs - n, "n": n, "st": st})
         runs = sorted({(c, self.col_of(c, tid)) for c, tid in started})
+        finished = [(c, tid) for c, tid in finished if not (w.cell_override.get(c) == "aband" and last.get(c) == tid)]
         fin = sorted({(c, self.col_of(c, tid)) for c, tid in finished})
-        cut = sorted({(c, self.col_of(c, tid)) for c, tid in finished if self.task_reqs[tid] == ETERNAL or self.completed.get((c, tid), 0) < self.task_reqs[tid]})
+        cut = sorted(
+            {
+                (c, self.col_of(c, tid))
+                for c, tid in finished
+                if not (w.cell_override.get(c) == "failed" and last.get(c) == tid) and (self.task_reqs[tid] == ETERNAL or self.completed.get((c, tid), 0) < self.task_reqs[tid])
+            }
+        )
         from esrally.driver import driver as drvmod
 
         skip = []
@@ -163,7 +235,17 @@ class TracedRace:
             "produced": [list(x) for x in sorted(self.produced)],
             "dropped": [list(x) for x in sorted(self.dropped)],
         }
-        return {"d2w": d2w, "w2d": w2d, "rcbox": rcbox, "timers": timers, "dtimers": dtimers, "drv": d, "wk": wk, "cell": cells, "hist": hist}
+        return {"d2w": d2w, "w2d": w2d, "d2d": d2d, "rc2d": rc2d, "rcbox": rcbox, "rcst": rcst, "timers": timers, "dtimers": dtimers, "drv": d, "wk": wk, "cell": cells, "flt": flt, "hist": hist}
+
+    def results_stored(self):
+        import json
+        import os
+
+        rf = self.w.race_file()
+        if not os.path.exists(rf):
+            return bool(self.w.summaries)
+        with open(rf, "r", encoding="utf-8") as f:
+            return "results" in json.load(f) or bool(self.w.summaries)
 
     def _proj_msg(self, m):
         nm = type(m).__name__
@@ -182,12 +264,20 @@ class TracedRace:
             head = w.sim.chan[(src, dst)][0]
             nm = type(head).__name__
             if src == w.DRIVER and dst.startswith("Worker"):
-                ev = {"Bootstrap": "WRecvBootstrap", "StartWorker": "WRecvStartWorker", "Drive": "WRecvDrive", "CompleteCurrentTask": "WRecvCCT"}.get(nm, "WRecv" + nm)
+                ev = {"Bootstrap": "WRecvBootstrap", "StartWorker": "WRecvStartWorker", "Drive": "WRecvDrive", "CompleteCurrentTask": "WRecvCCT", "BenchmarkFailure": "WRecvBenchmarkFailure"}.get(nm, "WRecv" + nm)
                 return ev, int(dst[6:])
             if dst == w.DRIVER and src.startswith("Worker"):
-                ev = {"JoinPointReached": "DRecvJoinPointReached", "UpdateSamples": "DRecvUpdateSamples"}.get(nm, "DRecv" + nm)
+                ev = {"JoinPointReached": "DRecvJoinPointReached", "UpdateSamples": "DRecvUpdateSamples", "BenchmarkFailure": "DRecvBenchmarkFailure", "ChildActorExited": "DRecvChildExited"}.get(nm, "DRecv" + nm)
                 return ev, int(src[6:])
-            return "Deliver" + nm, 0
+            if src == w.DRIVER and dst == w.DRIVER:
+                return "DRecvSelfFailure", 0
+            if src == w.DRIVER and dst == w.RC:
+                return "RcRecv", 0
+            if src == w.RC and dst == w.DRIVER:
+                return "DRecvFromRc", 0
+            if dst == w.RC and nm == "EngineStopped":
+                return "RcEngineStopped", 0
+            return "Skip", 0
         if dec[0] == "wakeup":
             if dec[1] == w.DRIVER:
                 return "DWakeup", 1
@@ -196,35 +286,120 @@ class TracedRace:
             return "ExecStart", int(dec[1][6:])
         if dec[0] == "req":
             return "ExecStep", dec[1]
+        if dec[0] == "fault":
+            kind = dec[1]
+            return {"req": "FReq", "param": "FParam", "store": "FArm", "rcstore": "FArm", "die": "FWorkerDies", "cancel": "FCancel"}[kind], (dec[2] if len(dec) > 2 else 0)
         raise ValueError(dec)
+
+    def fault_decisions(self):
+        """Fault injections possible now (model: CanFault)."""
+        w = self.w
+        if self.fault_kind == "none" or w.fault_fired or self.fault_armed or self.complete_sent() or not w.sim.actors[w.DRIVER].alive:
+            return []
+        if len(self.events) < self.fault_delay:
+            return []
+        k = self.fault_kind
+        if k in ("req", "param"):
+            return [("fault", k, c) for c in sorted(w.pending)]
+        if k in ("store", "rcstore", "cancel"):
+            return [("fault", k)]
+        if k == "die":
+            ncols = len(self.driver.allocations[0])
+            return [("fault", k, i) for i in range(1, self.scn["W"] + 1) if w.sim.actors["Worker%d" % i].alive and self.worker(i).current_task_index < ncols - 1]
+        return []
+
+    def complete_sent(self):
+        return any(type(m).__name__ == "BenchmarkComplete" for m in self.rc_sent)
+
+    def enabled(self):
+        return list(self.w.enabled()) + self.fault_decisions()
+
+    def _complete_request(self, c, service_time=None):
+        w = self.w
+        req = w.pending[c]
+        tid = int(req["path"].rsplit("/", 1)[1])
+        n = self.completed.get((c, tid), 0) + 1
+        sid = (c, self.col_of(c, tid), n)
+        self.vid_info[req["n"]] = sid
+        self.completed[(c, tid)] = n
+        self.produced.append(sid)
+        wi = self.scn["workerOf"][c]
+        w.step(("req", c), service_time=service_time, outcome={"vid": req["n"]})
+        inst = self.worker(wi)
+        inq = inst.sampler is not None and any(s.request_meta_data.get("vid") == req["n"] for s in list(inst.sampler.q.queue))
+        if not inq:
+            self.dropped.append(sid)
 
     def do(self, dec, service_time=None):
         w = self.w
         ev, arg = self.decision_event(dec)
         n_cct_before = self._count_cct()
+        fired_before = w.fault_fired
         if dec[0] == "req":
-            c = dec[1]
-            req = w.pending[c]
-            tid = int(req["path"].rsplit("/", 1)[1])
-            n = self.completed.get((c, tid), 0) + 1
-            sid = (c, self.col_of(c, tid), n)
-            self.vid_info[req["n"]] = sid
-            self.completed[(c, tid)] = n
-            self.produced.append(sid)
-            wi = self.scn["workerOf"][c]
-            w.step(dec, service_time=service_time, outcome={"vid": req["n"]})
-            # was the sample accepted by the sampler?
-            inst = self.worker(wi)
-            inq = inst.sampler is not None and any(s.request_meta_data.get("vid") == req["n"] for s in list(inst.sampler.q.queue))
-            if not inq:
-                self.dropped.append(sid)
+            self._complete_request(dec[1], service_time)
+        elif dec[0] == "fault":
+            kind = dec[1]
+            if kind == "req":
+                w.fail_request(dec[2], self.req_variant)
+            elif kind == "param":
+                c = dec[2]
+                req = w.pending[c]
+                tid = int(req["path"].rsplit("/", 1)[1])
+                idx = None
+                for a in self.driver.allocations[c]:
+                    if a is not None and hasattr(a, "client_index_in_task") and a.task.name == "t%d" % tid:
+                        idx = a.client_index_in_task
+                w.param_fault = (tid, idx)
+                self._complete_request(c, service_time)
+                if w.fault_fired:
+                    w.cell_override[c] = "failed"
+                else:
+                    # the loop ended before asking the parameter source again: this was an ordinary request completion
+                    w.param_fault = None
+                    ev = "ExecStep"
+            elif kind == "store":
+                w.arm_store_fault()
+                w.fault_fired = False
+                self.fault_armed = True
+            elif kind == "rcstore":
+                w.arm_rc_store_fault()
+                w.fault_fired = False
+                self.fault_armed = True
+            elif kind == "die":
+                w.kill_worker(dec[2])
+            elif kind == "cancel":
+                w.cancel()
+                w.sim.step(("deliver", "user", w.RC))
         else:
+            rc_complete = ev == "RcRecv" and type(w.sim.chan[(w.DRIVER, w.RC)][0]).__name__ == "BenchmarkComplete"
+            is_exit = ev == "DRecvFromRc" and type(w.sim.chan[(w.RC, w.DRIVER)][0]).__name__ == "ActorExitRequest"
+            nerr = len(w.sim.handler_errors)
             info = w.step(dec)
+            if ev == "RcRecv":
+                self.rc_pos += 1
+                if rc_complete and not (w.fault_fired and not fired_before):
+                    self.rc_stopping = True
+            if ev == "RcEngineStopped":
+                self.rc_stopping = False
+            if is_exit:
+                # the coordinator exits and takes its workers with it (ActorExitRequest is forwarded to all children)
+                for i in range(1, self.scn["W"] + 1):
+                    wn = "Worker%d" % i
+                    if w.sim.actors[wn].alive:
+                        w.sim.kill(wn, notify_parent=False)
+                for key in list(w.sim.chan):
+                    if key[0] == w.DRIVER or key[1] == w.DRIVER:
+                        del w.sim.chan[key]
+                w.pending.clear()
             if ev == "DRecvJoinPointReached" and self._count_cct() > n_cct_before:
                 jp = info[3].task[0].task.id
                 self.cct.append(jp)
                 self._check_cct_early(jp)
+        if w.fault_fired and self.t_fault is None:
+            self.t_fault = w.clock.now
         st = self.project()
+        if st["rcst"]["error"] and self.t_report is None:
+            self.t_report = w.clock.now
         self.events.append({"ev": ev, "arg": arg, "st": st})
         return ev, arg
 
@@ -256,13 +431,21 @@ class TracedRace:
             (st["drv"]["completed"], st["drv"]["step"], st["drv"]["cct"]),
             tuple(m["k"] for m in st["rcbox"]),
             tuple((x["col"], x["st"]) for x in st["cell"]),
+            (st["rcst"]["pos"], st["rcst"]["error"], st["rcst"]["cancelled"], st["rcst"]["stored"], st["rcst"]["stopping"], tuple(st["rcst"]["replies"])),
+            (st["flt"]["armed"], st["flt"]["fired"]),
+            tuple(m["k"] for m in st["d2d"]) + tuple(m["k"] for m in st["rc2d"]),
+            tuple(x["alive"] for x in st["wk"]) + (st["drv"]["alive"],),
         )
 
     def complete(self):
-        return any(type(m).__name__ == "BenchmarkComplete" for _, m in self.w.rc_inbox())
+        return self.complete_sent()
+
+    def done(self):
+        """The race is over: race control answered with Success, or nothing can happen any more."""
+        return any(type(m).__name__ == "Success" for _s, m in self.w.user_inbox())
 
     def failed(self):
-        return any(type(m).__name__ in ("BenchmarkFailure", "BenchmarkCancelled") for _, m in self.w.rc_inbox())
+        return False
 
     def start(self):
         self.w.start()
@@ -277,10 +460,10 @@ class TracedRace:
         followed = 0
         skipped = 0
         for want in script:
-            if self.complete() or len(self.events) >= max_events:
+            if self.done() or len(self.events) >= max_events:
                 break
             match = None
-            for dec in self.w.enabled():
+            for dec in self.enabled():
                 if self.decision_event(dec) == tuple(want):
                     match = dec
                     break
@@ -293,8 +476,8 @@ class TracedRace:
         n_random = 0
         unchanged = 0
         sig = self.control_signature()
-        while not self.complete() and not self.failed() and len(self.events) < max_events and n_random < max_events // 2 and unchanged < 25:
-            en = self.w.enabled()
+        while not self.done() and len(self.events) < max_events and n_random < max_events // 2 and unchanged < 25:
+            en = self.enabled()
             if not en:
                 break
             self.do(rnd.choice(en))
@@ -305,12 +488,12 @@ class TracedRace:
         # deterministic round-robin sweeps; a hang is diagnosed when full sweeps no longer change the control state
         same = 0
         sig = self.control_signature()
-        while not self.complete() and not self.failed():
+        while not self.done():
             en = self.w.enabled()
             if not en:
                 break
             for dec in en:
-                if dec in self.w.enabled() and not self.complete():
+                if dec in self.w.enabled() and not self.done():
                     self.do(dec)
             nsig = self.control_signature()
             same = same + 1 if nsig == sig else 0
@@ -326,10 +509,7 @@ class TracedRace:
 
     def final_table(self):
         """Record table at race control at the end of the race, one row per executed request."""
-        docs = []
-        for _src, m in self.w.rc_inbox():
-            if type(m).__name__ in ("TaskFinished", "BenchmarkComplete") and m.metrics:
-                docs.extend(pickle.loads(zlib.decompress(m.metrics)))
+        docs = list(self.w.coordinator().metrics_store.docs)  # race control's metrics store
         by = {}
         for d in docs:
             vid = d.get("meta", {}).get("vid")
@@ -367,8 +547,19 @@ class TracedRace:
         return rows
 
     def trace(self, tid):
-        if self.events and self.complete():
-            self.events[-1]["final"] = self.final_table()
+        if self.events:
+            last = self.events[-1]
+            last["last"] = True
+            if self.done() and self.fault_kind == "none":
+                last["final"] = self.final_table()
+            if self.fault_kind != "none":
+                last["fault"] = {
+                    "fired": bool(self.w.fault_fired),
+                    "tFault": int(round(self.t_fault * 1000)) if self.t_fault is not None else -1,
+                    "tReport": int(round(self.t_report * 1000)) if self.t_report is not None else -1,
+                }
+        for e in self.events:
+            e.setdefault("last", False)
         return {"id": tid, "scn": self.scn, "init": self.init, "events": self.events}
 
     def close(self):
